@@ -2,6 +2,7 @@ import M3d.Basic
 import M3d.Model.Bounded
 import M3d.Model.BoundedPoly
 import M3d.Model.BoundedPolyRect
+import M3d.Model.BoundedRectSet
 /-!
 Line-protocol handler for C03 (core-only).
 
@@ -19,6 +20,10 @@ Line-protocol handler for C03 (core-only).
         `rectCons3/rectCons2`, the box test of `[lo, hi]` per point (`M3d.C03.rect_polytope_contains`), the box `lo hi 1`
         that `Solid()` has to report (`rect_polytope_mesh_box`; `inv` for an inverted rect), and the box test again for
         `Solid().Contains` (`wrapper_does_not_cut_polytope_rect`)
+    c03 rsprog q <nstmts> <stmts> <npts> pts          -> per `Solid()` call of the program over `*RectSet` objects
+        (`a|r <i> <6 coords>` = `v_i.Add/Remove`, `A|R <i> <j>` = `v_i.AddRectSet/RemoveRectSet(v_j)`, `N <i>` = `v_i = NewRectSet()`,
+        `S <i>` = `v_i.Solid()`): `1:` (valid bounds) + per point "some rect stored in the receiver at that moment contains it"
+        — the requirement (`M3d.C03.rectset_program_bounds`, `rectset_program_answers`), computed on a store of values
 
 All numbers cross the boundary as exact rationals `num/den`; mode `q` runs the model at `Rat`
 (the instance the theorems cover), mode `f` at `Float` (same operations, same order as the Go code).
@@ -439,10 +444,49 @@ def handleWith (N : Num α) : List String → Option String
 
 end Generic
 
+/-! ### programs over `toolbox3d.RectSet` objects (`rsprog`) -/
+section RsProg
+open M3d.RectSet
+
+def pRat : P Rat
+  | w :: ws => (parseRat w).map (·, ws)
+  | [] => none
+
+def pV3 : P (V3 Rat) := fun ws => do
+  let (x, ws) ← pRat ws
+  let (y, ws) ← pRat ws
+  let (z, ws) ← pRat ws
+  pure (⟨x, y, z⟩, ws)
+
+def pCmd : P (Cmd Rat)
+  | "a" :: ws => do
+    let (i, ws) ← pNat ws; let (lo, ws) ← pV3 ws; let (hi, ws) ← pV3 ws
+    pure (.add i ⟨lo, hi⟩, ws)
+  | "r" :: ws => do
+    let (i, ws) ← pNat ws; let (lo, ws) ← pV3 ws; let (hi, ws) ← pV3 ws
+    pure (.remove i ⟨lo, hi⟩, ws)
+  | "A" :: ws => do let (i, ws) ← pNat ws; let (j, ws) ← pNat ws; pure (.addSet i j, ws)
+  | "R" :: ws => do let (i, ws) ← pNat ws; let (j, ws) ← pNat ws; pure (.removeSet i j, ws)
+  | "N" :: ws => do let (i, ws) ← pNat ws; pure (.reset i, ws)
+  | "S" :: ws => do let (i, ws) ← pNat ws; pure (.solid i, ws)
+  | _ => none
+
+/-- `rsprog`: the requirement for every `Solid()` call of the program. -/
+def runRsProg (ws : List String) : Option String := do
+  let (n, ws) ← pNat ws
+  let (cs, ws) ← pMany pCmd n ws
+  let (npts, ws) ← pNat ws
+  let (pts, ws) ← pMany pV3 npts ws
+  if !ws.isEmpty then none
+  pure (" ".intercalate (progAnswers cs pts))
+
+end RsProg
+
 def handleAll (ws : List String) : Option String :=
   match ws with
   -- the property's requirement for an opaque leaf: bounds valid, every shell point rejected
   | "shell" :: _ => some "ok"
+  | "rsprog" :: "q" :: rest => runRsProg rest
   | kind :: "q" :: rest => handleWith numQ (kind :: rest)
   | kind :: "f" :: rest => handleWith numF (kind :: rest)
   | _ => none
